@@ -322,6 +322,26 @@ pub mod shim {
         }
         None
     }
+    /// contract of `s.iter().rposition(f)` for any element type (N2)
+    pub fn rposition_ref<T, F: Fn(&T) -> bool>(s: &[T], f: F) -> (r: Option<usize>)
+        requires forall|x: &T| f.requires((x,)),
+        ensures match r {
+            Some(i) => i < s@.len() && f.ensures((&s@[i as int],), true)
+                && forall|j: int| i < j < s@.len() ==> f.ensures((&#[trigger] s@[j],), false),
+            None => forall|j: int| 0 <= j < s@.len() ==> f.ensures((&#[trigger] s@[j],), false),
+        }
+    {
+        let mut i = s.len();
+        while i > 0
+            invariant i <= s@.len(), forall|x: &T| f.requires((x,)),
+                forall|j: int| i <= j < s@.len() ==> f.ensures((&#[trigger] s@[j],), false),
+            decreases i
+        {
+            i = i - 1;
+            if f(&s[i]) { return Some(i); }
+        }
+        None
+    }
     /// the same for a closure that takes the element by reference
     pub fn position_ref<F: Fn(&u8) -> bool>(s: &[u8], f: F) -> (r: Option<usize>)
         requires forall|b: &u8| f.requires((b,)),
